@@ -605,6 +605,10 @@ def check_filename(p: Program, rep: Report) -> None:
             rep.ok("R5.6", f"header {key}: file-name text is quoted before it enters the value")
     if sinks == 0:
         rep.undecide("R5.6", "no header sink found in generate_common_headers")
+    # the other header built from caller text: Location. It is percent-encoded (pure ASCII) on every path of both constructors
+    from .c13 import redirect_location_provenance
+
+    redirect_location_provenance(p, rep, "R5.6")
 
 
 def check_cookie_lines(p: Program, rep: Report) -> None:
